@@ -1,9 +1,10 @@
 """C20 - Mobile Allocation decoding (gsm48_decode_mobile_alloc, layer23 sysinfo.c).
 Model: Model/MobAlloc.v; theorems: Props/C20.v.
-Tie: Gen/MobAllocConst.v (FREQ_TYPE_SERV/HOPP, freq[]/hopping[] bounds from sysinfo.h, EINVAL, sizeof(struct gsm_sysinfo_freq) -
-all as compiled) + correspondence of the extracted model with the textually extracted real function, compiled with
-ASan + UBSan (vla-bound on), one forked child per input so that a sanitizer abort is attributed to its input.
-A second build without vla-bound shows what the machine code does after a zero-length VLA declaration (model: decode_gnu)."""
+Tie: Gen/MobAllocConst.v (FREQ_TYPE_SERV/HOPP, freq[]/hopping[] bounds from sysinfo.h, EINVAL, sizeof(struct gsm_sysinfo_freq),
+the bound of the function's local array f - all as compiled) + correspondence of the extracted model with the textually
+extracted real function, compiled with ASan + UBSan (vla-bound on), one forked child per input so that a sanitizer abort is
+attributed to its input.  The former defect (len = 0: zero-length VLA + stack overflow, fixed in /repo 1f7898e) stays in the
+oracle under its key: a sanitizer report or a wrong result at len = 0 is reported as c20-len0-vla-overflow."""
 import json
 import os
 import re
@@ -15,6 +16,8 @@ from ..common import REPO, LIBOSMO, ROOT, WORK
 SYSINFO_C = "src/host/layer23/src/common/sysinfo.c"
 SYSINFO_H = "src/host/layer23/include/osmocom/bb/common/sysinfo.h"
 LEN0_KEY = "c20-len0-vla-overflow"
+# sha256 of the text of gsm48_decode_mobile_alloc the model was written against (a change is a note, never an alarm)
+REVIEWED_FN_SHA256 = "7cf774ea26ea9c9e037655bcb1fd1a635d1be7f5dcfbe42c3b67f74f33acd5c3"
 CODES = {-997: "UBSan vla-bound (zero-length VLA)", -998: "ASan/UBSan memory error", -996: "abnormal end"}
 
 
@@ -35,8 +38,13 @@ def extract_sources():
     m2 = re.search(r"uint16_t\s+hopping\s*\[\s*([^\]]+)\]\s*;", h)
     if not m1 or not m2:
         raise RuntimeError("freq[] / hopping[] members not found in " + SYSINFO_H)
-    txt = "/* extracted from %s */\n%s\n#define C20_FREQ_SIZE (%s)\n#define C20_HOPPING_SIZE (%s)\n" % (
-        SYSINFO_H, "\n".join(defs), m1.group(1).strip(), m2.group(1).strip())
+    # the local array of the function: its bound as written, if it is an integer constant expression (else 0: a VLA)
+    m3 = re.search(r"uint16_t\s+f\s*\[([^\]]*)\]\s*;", fn)
+    fb = m3.group(1).strip() if m3 else ""
+    if not fb or not re.fullmatch(r"[\s0-9xXa-fA-FuUlL<>+\-*/()]+", fb):
+        fb = "0"
+    txt = "/* extracted from %s */\n%s\n#define C20_FREQ_SIZE (%s)\n#define C20_HOPPING_SIZE (%s)\n#define C20_F_BOUND (%s)\n" % (
+        SYSINFO_H, "\n".join(defs), m1.group(1).strip(), m2.group(1).strip(), fb)
     common.write_if_changed(os.path.join(d, "c20_defs.inc"), txt)
     return fn
 
@@ -48,23 +56,21 @@ def build_c(ctx):
     ok, path, log = common.cc("c20", src, flags=flags)
     if not ok:
         raise RuntimeError("C20 harness does not compile:\n" + log[-3000:])
-    ok2, path2, log2 = common.cc("c20_novla", src, flags=flags + " -fno-sanitize=vla-bound")
-    if not ok2:
-        raise RuntimeError("C20 harness (no vla-bound) does not compile:\n" + log2[-3000:])
-    return path, path2
+    return path
 
 
 def gen(ctx):
     bins = build_c(ctx)
-    out = subprocess.run([bins[0], "const"], stdout=subprocess.PIPE, text=True, timeout=30).stdout.split()
-    serv, hopp, fsize, hsize, einval, esize = [int(x) for x in out]
+    out = subprocess.run([bins, "const"], stdout=subprocess.PIPE, text=True, timeout=30).stdout.split()
+    serv, hopp, fsize, hsize, einval, esize, fcap = [int(x) for x in out]
     txt = common.gen_header("sysinfo.h (FREQ_TYPE_* #defines, freq[]/hopping[] array bounds, as compiled), errno.h EINVAL, "
-                            "gsm48_ie.h sizeof(struct gsm_sysinfo_freq)")
+                            "gsm48_ie.h sizeof(struct gsm_sysinfo_freq), sysinfo.c bound of the local array f in gsm48_decode_mobile_alloc (0 = not a constant)")
     txt += ("Definition c_FREQ_TYPE_SERV : Z := %d.\nDefinition c_FREQ_TYPE_HOPP : Z := %d.\n"
             "Definition c_FREQ_TABLE_SIZE : Z := %d.\nDefinition c_HOPPING_SIZE : Z := %d.\n"
-            "Definition c_EINVAL : Z := %d.\nDefinition c_FREQ_ENTRY_SIZE : Z := %d.\n" % (serv, hopp, fsize, hsize, einval, esize))
+            "Definition c_EINVAL : Z := %d.\nDefinition c_FREQ_ENTRY_SIZE : Z := %d.\nDefinition c_F_CAPACITY : Z := %d.\n"
+            % (serv, hopp, fsize, hsize, einval, esize, fcap))
     ctx.gen("MobAllocConst", txt)
-    ctx.extra["gen_constants"] = dict(FREQ_TYPE_SERV=serv, FREQ_TYPE_HOPP=hopp, freq_size=fsize, hopping_size=hsize, EINVAL=einval)
+    ctx.extra["gen_constants"] = dict(FREQ_TYPE_SERV=serv, FREQ_TYPE_HOPP=hopp, freq_size=fsize, hopping_size=hsize, EINVAL=einval, f_capacity=fcap)
     return bins, dict(serv=serv, hopp=hopp, fsize=fsize, hsize=hsize, einval=einval)
 
 
@@ -267,7 +273,12 @@ def run_impl(binp, lines, timeout=3000):
 
 
 def run(ctx):
-    (binp, binp_novla), consts = gen(ctx)
+    binp, consts = gen(ctx)
+    import hashlib
+    h = hashlib.sha256(extract_sources().rstrip("\n").encode()).hexdigest()
+    ctx.extra["function_sha256"] = h
+    if h != REVIEWED_FN_SHA256:
+        ctx.note("source of gsm48_decode_mobile_alloc changed since the model was reviewed (the correspondence decides)")
     ctx.prove()
     if ctx.tier == "thorough":
         ctx.coqchk()
@@ -288,14 +299,9 @@ def run(ctx):
     impl, report = run_impl(binp, lines)
     idx = list(range(len(cases)))
     ctx.correspond("mobile-alloc", "MobAlloc", idx, lambda k: "w_c20_decode " + lines[k], lambda k: impl[k], show=lambda k: show(cases[k]))
-    # what the compiled code does after a zero-length VLA declaration (vla-bound off): every len = 0 case + a sample of the others
-    sub = [k for k in idx if cases[k]["len"] == 0 or k % 10 == 0]
-    impl2, report2 = run_impl(binp_novla, [lines[k] for k in sub])
-    i2 = dict(zip(sub, impl2))
-    ctx.correspond("mobile-alloc-gnu-vla", "MobAlloc", sub, lambda k: "w_c20_decode_gnu " + lines[k], lambda k: i2[k], show=lambda k: show(cases[k]))
     # the Coq specification (spec_hopping) against the Python oracle below, so that the oracle is the theorem's spec
     # (the literal specification walks the table by index for each of the 1024 ARFCNs: ~30 ms per case, so a sample)
-    sp = [k for k in idx if 1 <= cases[k]["len"] <= 8 and len(cases[k]["ma"]) >= cases[k]["len"] and cases[k]["kind"] != "malformed"]
+    sp = [k for k in idx if 0 <= cases[k]["len"] <= 8 and len(cases[k]["ma"]) >= cases[k]["len"] and cases[k]["kind"] != "malformed"]
     sp = sp[::max(1, len(sp) // (150 if ctx.tier == "quick" else 1500))]
     spec_py = {}
     for k in sp:
@@ -324,19 +330,17 @@ def run(ctx):
         exp, sel, ca = (e, None, None) if isinstance(e, list) else e
         if o and o[0] in CODES:
             if c["len"] == 0:
-                gnu = i2.get(k)
-                what = ("gsm48_decode_mobile_alloc(len = 0): zero-length VLA f[len << 3] (UBSan vla-bound)"
-                        + ("; compiled without that check the function then writes beyond the VLA (ASan dynamic-stack-buffer-overflow)"
-                           if gnu == [-998] else ""))
-                fail(what, dict(show(c), sanitizer=first_report.get(k, ""), without_vla_check=gnu), key=LEN0_KEY,
-                                expected=exp, observed=o)
-                ctx.nontrivial(("len0", o[0], tuple(gnu or [])[:1], min(len(ca), 2)))
+                fail("gsm48_decode_mobile_alloc(len = 0): " + CODES[o[0]] + " (zero-length VLA / write beyond the local array)",
+                     dict(show(c), sanitizer=first_report.get(k, "")), key=LEN0_KEY, expected=exp, observed=o)
+                ctx.nontrivial(("len0-crash", o[0], min(len(ca), 2)))
             else:
                 fail("gsm48_decode_mobile_alloc: " + CODES[o[0]], dict(show(c), sanitizer=first_report.get(k, "")),
                                 key="c20-memory-len%s" % ("1-8" if c["len"] <= 8 else ">8"), expected=exp, observed=o)
             continue
         if o != exp:
-            if c["len"] > 8:
+            if c["len"] == 0:
+                key = LEN0_KEY
+            elif c["len"] > 8:
                 key = "c20-long-not-rejected"
             elif o[0] != exp[0]:
                 key = "c20-return-code"
